@@ -15,7 +15,11 @@ import periodictable
 from periodictable import activation as act
 
 getcontext().prec = 60
-TINY = 5e-324
+# absolute floor of every comparison: where an intermediate factor of activity() underflows into the subnormal range
+# (below 2.2e-308) it keeps only a few bits, and a result of order 1e-308 can be off by its own size although every
+# normal-range result is good to 2^-30.  1e-300 uCi is twenty orders of magnitude above the largest such error and
+# three hundred below anything measurable.
+TINY = 1e-300
 
 
 def all_rows():
